@@ -59,7 +59,50 @@ def c08_configs(tier):
     return cfgs
 
 
+def handle_diff(ctx, it, cfg, d, mk, seen_keys, aug_value_diffs):
+    if it["value_order_free"] and d["what"] in ("return-data", "final-storage"):
+        # aug-assignment: only exactly-once is demanded (the ordered logs matched); the value order is C02's subject
+        aug_value_diffs[cfg.name] = aug_value_diffs.get(cfg.name, 0) + 1
+        return
+    if "call" not in d:
+        # final storage differs although every call's status/return/logs matched (or were reported): report once per pipeline
+        fname = "(final storage)"
+    else:
+        fname = it["labels"][d["call"]]
+    key = finding_key(fname, cfg)
+    if key in seen_keys:
+        seen_keys[key] += 1
+        return
+    seen_keys[key] = 1
+    if len(seen_keys) > 10:
+        return
+    detail = {"config": cfg.name, "difference": d, "function": fname,
+              "rule": "VyCore evaluation order (theorem eval_once_in_order / pass_by_value): each tagged sub-expression exactly "
+                      "once, in source order; expected = model, observed = EVM"}
+    try:
+        pos, rnd = it["group"][d["call"]]
+        single = build_one(mk, pos, rnd).p
+        calls1 = [H.Call(0, [])]
+        m1 = H.model_eval([(single, calls1)], "c08s", full=True, procs=1)[0]
+        o1 = H.observe(single, cfg, calls1, single.vy(prune=True))
+        d1 = H.compare(single, calls1, m1, o1, unordered={0} if d["call"] in it["unordered"] else ())
+        if d1 is not None:
+            out = []
+            single.exts[0].vy(out)
+            detail.update({"source": single.vy(prune=True), "test_function": "\n".join(out), "difference": d1,
+                           "call": single.exts[0].abi_sig(), "model_trace": str(m1[0][0][2]) if m1[0][0][0] == "ok" else str(m1[0][0])})
+    except Exception as e:
+        detail["isolation_failed"] = f"{type(e).__name__}: {e}"
+    if "source" not in detail:
+        detail["source"] = it["prog"].vy()
+        detail["calls"] = [f.abi_sig() for f in it["prog"].exts[:(d.get("call", 0) + 1)]]
+    ctx.violation("failing-input", f"effect order/count differs from source order in {fname} under {cfg.name}", detail, key=key)
+
+
 def run(ctx):
+    from vlib.c01_replay import replay
+    if replay(ctx):
+        return
     b = ctx.coq_build(COQ_FILES)
     if not b["ok"]:
         ctx.violation("theorem-broken", f"{b.get('failed_lemma')} in {b['file']}",
@@ -128,46 +171,13 @@ def run(ctx):
                 rejected_src.setdefault(rk, it["prog"].vy(prune=True))
                 continue
             n_cmp += len(it["calls"])
-            d = H.compare(it["prog"], it["calls"], it["model"], o, unordered=it["unordered"])
             for lab in it["labels"]:
                 key = lab.split("_", 1)[1]
                 per_position[key] = per_position.get(key, 0) + 1
-            if d is None:
-                continue
-            if it["value_order_free"] and d["what"] in ("return-data", "final-storage"):
-                # aug-assignment: only exactly-once is demanded (the ordered logs matched); the value order is C02's subject
-                aug_value_diffs[cfg.name] = aug_value_diffs.get(cfg.name, 0) + 1
-                continue
-            fname = it["labels"][d["call"]] if "call" in d else "(final storage)"
-            key = finding_key(fname, cfg)
-            if key in seen_keys:
-                seen_keys[key] += 1
-                continue
-            seen_keys[key] = 1
-            if len(seen_keys) > 8:
-                continue
-            # isolate the failing test function: rebuild it alone and re-run it (the replay is then one small contract)
-            detail = {"config": cfg.name, "difference": d, "function": fname,
-                      "rule": "VyCore evaluation order (theorem eval_once_in_order / pass_by_value): each tagged sub-expression exactly "
-                              "once, in source order; expected = model, observed = EVM"}
-            try:
-                pos, rnd = it["group"][d["call"]]
-                single = build_one(mk, pos, rnd).p
-                calls1 = [H.Call(0, [])]
-                m1 = H.model_eval([(single, calls1)], "c08s", full=True, procs=1)[0]
-                o1 = H.observe(single, cfg, calls1, single.vy(prune=True))
-                d1 = H.compare(single, calls1, m1, o1, unordered={0} if it["unordered"] and d["call"] in it["unordered"] else ())
-                if d1 is not None:
-                    out = []
-                    single.exts[0].vy(out)
-                    detail.update({"source": single.vy(prune=True), "test_function": "\n".join(out), "difference": d1,
-                                   "call": single.exts[0].abi_sig(), "model_trace": str(m1[0][0][2]) if m1[0][0][0] == "ok" else str(m1[0][0])})
-            except Exception as e:
-                detail["isolation_failed"] = f"{type(e).__name__}: {e}"
-            if "source" not in detail:
-                detail["source"] = it["prog"].vy()
-                detail["calls"] = [f.abi_sig() for f in it["prog"].exts[:(d.get("call", 0) + 1)]]
-            ctx.violation("failing-input", f"effect order/count differs from source order in {fname} under {cfg.name}", detail, key=key)
+            diffs = H.compare_all(it["prog"], it["calls"], it["model"], o, unordered=it["unordered"])
+            # every differing test function is looked at (a known finding must not mask another test in the same bundle)
+            for d in diffs:
+                handle_diff(ctx, it, cfg, d, mk, seen_keys, aug_value_diffs)
     ctx.corr["distinct_findings"] = seen_keys
     ctx.corr["aug_assign_value_order_differences_by_config"] = aug_value_diffs
     ctx.corr["evaluations"] = n_cmp
